@@ -56,6 +56,13 @@ DepMargClause(t) ==
     IN IF tot = 0 THEN "skip"
        ELSE IF \E b \in B : ~BinomOK(CountOf(t, <<b>>), t.N, m[b], tot, 160) THEN "dependent-product-marginal"
        ELSE "ok"
+\* the boundary of an interval: all points in the two boxes of its end points, each end with a binomial(N, 1/2) share
+EndpointsClause(t) ==
+    LET e == E(t)  env == [nm \in DOMAIN t.prm |-> t.prm[nm] \div F]  s == Sc(t)
+        bl == ((AffQ(e.lo, env) - 4 * s.lo) * s.den) \div (4 * s.size)   bh == ((AffQ(e.hi, env) - 4 * s.lo) * s.den) \div (4 * s.size)
+    IN IF \E i \in DOMAIN t.counts : t.counts[i].b \notin {<<bl>>, <<bh>>} THEN "interval-boundary-point-off-the-end-points"
+       ELSE IF ~BinomOK(CountOf(t, <<bl>>), t.N, 1, 2, 0) \/ ~BinomOK(CountOf(t, <<bh>>), t.N, 1, 2, 0) THEN "interval-boundary-ends-not-equally-likely"
+       ELSE "ok"
 \* accumulated small grids (std points per call): no cell in which one grid is expected to put at least two points is starved
 \* (gets less than a quarter of its share)
 GridAccClause(t) ==
@@ -86,6 +93,13 @@ CircleBdClause(t) ==
 RingEdgeSeq(r) == [i \in DOMAIN r |-> <<r[i], r[(i % Len(r)) + 1]>>]
 RECURSIVE AllEdgeSeq(_, _)
 AllEdgeSeq(rs, j) == IF j > Len(rs) THEN <<>> ELSE RingEdgeSeq(rs[j]) \o AllEdgeSeq(rs, j + 1)
+\* index of the first edge with the smallest distance  |cross product| / length  to the point p (at 1/1024), scanning from edge k
+CrossV(p, u, v) == AbsI((p[1] * 4 - u[1] * 1024) * (v[2] - u[2]) - (p[2] * 4 - u[2] * 1024) * (v[1] - u[1]))
+RECURSIVE NearestEdge(_, _, _, _, _)
+NearestEdge(p, edges, lens, k, best) ==
+    IF k > Len(edges) THEN best
+    ELSE NearestEdge(p, edges, lens, k + 1,
+                     IF CrossV(p, edges[k][1], edges[k][2]) * lens[best] < CrossV(p, edges[best][1], edges[best][2]) * lens[k] THEN k ELSE best)
 PolyBdClause(t) ==
     LET e == E(t)  env == [nm \in DOMAIN t.prm |-> t.prm[nm] \div F]
         o == IF e.k = "poly" THEN <<0, 0>> ELSE AffVQ(e.o, env)  a == IF e.k = "poly" THEN <<0, 0>> ELSE AffVQ(e.a, env)  b == IF e.k = "poly" THEN <<0, 0>> ELSE AffVQ(e.b, env)
@@ -96,9 +110,8 @@ PolyBdClause(t) ==
                  ELSE <<<<o, a>>, <<a, <<a[1] + b[1] - o[1], a[2] + b[2] - o[2]>>>>, <<<<a[1] + b[1] - o[1], a[2] + b[2] - o[2]>>, b>>, <<b, o>>>>
         lens == [k \in DOMAIN edges |-> Len1024(edges[k][2][1] - edges[k][1][1], edges[k][2][2] - edges[k][1][2])]
         tot == SumOver(DOMAIN lens, lens)
-        near(p, k) == \A k2 \in DOMAIN edges : crossv(p, edges[k][1], edges[k][2]) * lens[k2] <= crossv(p, edges[k2][1], edges[k2][2]) * lens[k]
-        \* corners belong to two edges: count a point for the first edge that is nearest
-        edgeOf(p) == CHOOSE k \in DOMAIN edges : near(p, k) /\ \A k2 \in DOMAIN edges : near(p, k2) => k <= k2
+        \* corners belong to two edges: count a point for the first edge that is nearest (one pass over the edges)
+        edgeOf(p) == NearestEdge(p, edges, lens, 2, 1)
         cnt(k) == Cardinality({i \in DOMAIN t.pts : edgeOf(t.pts[i]) = k})
     IN IF \E k \in DOMAIN edges : ~BinomOK(cnt(k), t.N, lens[k] \div 16, tot \div 16, 1) THEN "uniform-on-polygon-boundary" ELSE "ok"
 \* union A + B: the number of points in A is binomial with the share mass(A) / mass(A + B) (masses by a 128 x 128 lattice over
@@ -128,6 +141,7 @@ Check(t) ==
                     [] s.check = "grid2" -> GridClause2(t)
                     [] s.check = "gridacc" -> GridAccClause(t)
                     [] s.check = "depmarg" -> DepMargClause(t)
+                    [] s.check = "endpoints" -> EndpointsClause(t)
                     [] s.check = "gauss" -> GaussClause(t)
                     [] s.check = "lhs" -> LhsClause(t)
                     [] s.check = "circlebd" -> CircleBdClause(t)
